@@ -810,10 +810,13 @@ def session_case(run, drv, pending, case):
             if not expect_exc:
                 run.oracle_failure(dict(case, failed_step=step), f"step {step} {o['op']} raised {type(e).__name__}: {e}")
                 return
-            # after an exception raised by the call itself the objects are unconstrained (the property promises nothing there):
-            # the session ends here
+            # "nothing to filter by" is rejected ATOMICALLY by the unchanged code: the caller catches the exception and goes on;
+            # every object must still hold its rows (round 7, class i)
+            if [base.snapshot(x) for x in objs] != before:
+                run.oracle_failure(dict(case, failed_step=step), f"step {step} was rejected ({type(e).__name__}) but changed the rows of a catalog")
+                return
             run.count("session:exception")
-            break
+            continue
         if expect_exc:
             # nothing to filter by and the call returned instead of raising: acceptable iff every row of every object was kept
             if [base.snapshot(x) for x in objs] != before or base.snapshot(res) != before[tg]:
